@@ -1043,6 +1043,9 @@ func (dn *dirnode) loadManifest(txt string) error {
 		for i, token := range strings.Split(stream, " ") {
 			if i == 0 {
 				dirname = manifestUnescape(token)
+				if dirname != "." && !strings.HasPrefix(dirname, "./") {
+					return fmt.Errorf("line %d: invalid stream name %q", lineno, token)
+				}
 				continue
 			}
 			if !strings.Contains(token, ":") {
